@@ -8,6 +8,7 @@
 //   prer <from> <count>      pre-populate keys from .. from+count-1
 //   prog <op> <op> ...       one line per thread.  ops:  i:K insert(no accessor)  ir:K insert(const_accessor)  iw:K insert(accessor)
 //                            p:K / pr:K / pw:K emplace   fr:K find(const_accessor)  fw:K find(accessor)  c:K count  e:K erase(key)
+//                            fra:K ira:K pra:K = fr / ir / pr with an `accessor` object passed as const_accessor& (shared lock in an accessor object)
 //                            x erase(held accessor)   r release held accessor
 //   A thread owns one accessor slot; an op that needs the slot or blocks on element locks (ir iw pr pw fr fw e) releases a
 //   held accessor first (emitted as an explicit `r` in the effective program); x / r without a held accessor are dropped.
@@ -106,7 +107,7 @@ typedef Map::bucket Bucket;
 // ---------------------------------------------------------------------------------------------------------------
 // scenario
 // ---------------------------------------------------------------------------------------------------------------
-struct Op { std::string kind; long key = 0; };
+struct Op { std::string kind; long key = 0; bool as_acc = false; };   // as_acc: the reader-acquiring call receives an `accessor` object (as const_accessor&)
 static std::vector<std::vector<Op>> g_progs;
 static std::vector<long> g_pre;
 
@@ -256,9 +257,11 @@ static bool run_once(verif::Schedule& sch0, int run_idx, bool print) {
     for (size_t t = 0; t < T; ++t) bodies.push_back([&, t] {
         Map::accessor wa; Map::const_accessor ra;
         int held = 0;                      // 0 none, 1 const_accessor, 2 accessor
+        bool in_wa = false;                // the (shared) lock is held through the `accessor` object wa, passed to the call as const_accessor&
+        const Map& cm = m;
         long held_key = 0, held_gen = 0;
         int opi = 0;
-        auto cur_val = [&]() -> const Val& { return held == 2 ? wa->second : ra->second; };
+        auto cur_val = [&]() -> const Val& { return (held == 2 || in_wa) ? wa->second : ra->second; };
         auto ghost_check = [&] {
             if (!held) return;
             const Val& v = cur_val();
@@ -269,7 +272,7 @@ static bool run_once(verif::Schedule& sch0, int run_idx, bool print) {
         auto ghost_acquire = [&](int kind) {
             held = kind;
             const Val& v = cur_val();
-            held_key = held == 2 ? wa->first : ra->first; held_gen = v.v;
+            held_key = (held == 2 || in_wa) ? wa->first : ra->first; held_gen = v.v;
             if (v.magic != MAGIC) { violation("accessor acquired on a destroyed element"); return; }
             if (kind == 2) { if (v.writers || v.readers) violation("accessor acquired while the element is held (writers=" + std::to_string(v.writers) + ",readers=" + std::to_string(v.readers) + ")"); v.writers++; }
             else { if (v.writers) violation("const_accessor acquired while an accessor holds the element"); v.readers++; }
@@ -284,8 +287,8 @@ static bool run_once(verif::Schedule& sch0, int run_idx, bool print) {
             verif::note("begin", 11, 0);
             g_touch.load(std::memory_order_relaxed);
             ghost_check(); ghost_release();
-            if (held == 2) wa.release(); else ra.release();
-            held = 0;
+            if (held == 2 || in_wa) wa.release(); else ra.release();
+            held = 0; in_wa = false;
             verif::note("end", 1, 0);
         };
         for (auto& op : g_progs[t]) {
@@ -303,6 +306,14 @@ static bool run_once(verif::Schedule& sch0, int run_idx, bool print) {
             verif::note("gen", (u64)val, 0);
             bool res = false; long rv = k == "x" ? held_gen : 0;
             if (k == "i") res = m.insert(std::make_pair(op.key, Val(val)));
+            else if (op.as_acc) {
+                // documented uses of the base-class reference: the call takes the element lock shared, the object is an `accessor`
+                Map::const_accessor& base = wa;
+                in_wa = true;
+                if (k == "ir") { res = m.insert(base, std::make_pair(op.key, Val(val))); ghost_acquire(1); rv = wa->second.v; }
+                else if (k == "pr") { res = m.emplace(base, op.key, val); ghost_acquire(1); rv = wa->second.v; }
+                else { res = cm.find(base, op.key); if (res) { ghost_acquire(1); rv = wa->second.v; } else in_wa = false; }
+            }
             else if (k == "ir") { res = m.insert(ra, std::make_pair(op.key, Val(val))); ghost_acquire(1); rv = ra->second.v; }
             else if (k == "iw") { res = m.insert(wa, std::make_pair(op.key, Val(val))); ghost_acquire(2); rv = wa->second.v; }
             else if (k == "p") res = m.emplace(op.key, val);
@@ -316,7 +327,8 @@ static bool run_once(verif::Schedule& sch0, int run_idx, bool print) {
                 g_touch.load(std::memory_order_relaxed);
                 ghost_check(); ghost_release();
                 int was = held; held = 0;
-                res = (was == 2) ? m.erase(wa) : m.erase(ra);
+                bool w_obj = was == 2 || in_wa; in_wa = false;
+                res = w_obj ? m.erase(wa) : m.erase(ra);          // erase(accessor&) also when the accessor object holds the lock shared
             }
             g_snaps.push_back(take_snap(m));
             verif::note("snap", g_snaps.size() - 1, 0);
@@ -582,6 +594,7 @@ int main(int argc, char** argv) {
                 Op o; size_t c = w.find(':');
                 o.kind = w.substr(0, c);
                 if (c != std::string::npos) o.key = atol(w.c_str() + c + 1);
+                if (o.kind == "fra" || o.kind == "ira" || o.kind == "pra") { o.kind.pop_back(); o.as_acc = true; }   // same operation, other spelling
                 if (op_code(o.kind) < 0) { printf("bad-op %s\n", w.c_str()); return 2; }
                 ops.push_back(o);
             }
